@@ -2627,7 +2627,11 @@ func (h *hmapType) checkEnumer() {
 		}
 		switch disc {
 		case "":
-			h.r.OK(h.pre+".enumer", c, pos, et.Obj().Name()+".NextElement has no discriminator")
+			if bad := h.typedNextKind(fi, et, strings.ToLower(fi.Obj.Name())); bad != "" && !returnsInterfaceEnumeration(fi) {
+				h.r.Viol(h.pre+".enumer", c, pos, bad)
+			} else {
+				h.r.OK(h.pre+".enumer", c, pos, et.Obj().Name()+".NextElement has no discriminator")
+			}
 		case "Type":
 			wantVal := ""
 			if cst, ok := pkScope.Lookup(w).(*types.Const); ok {
@@ -2690,9 +2694,17 @@ func (h *hmapType) checkEnumer() {
 			wantKind := strings.ToLower(fi.Obj.Name())
 			_ = wantVal
 			if yields == wantKind {
-				h.r.OK(h.pre+".enumer", c, pos, fmt.Sprintf("Type=%s yields %s", got, yields))
+				if bad := h.typedNextKind(fi, et, wantKind); bad != "" && !returnsInterfaceEnumeration(fi) {
+					h.r.Viol(h.pre+".enumer", c, pos, bad)
+				} else {
+					h.r.OK(h.pre+".enumer", c, pos, fmt.Sprintf("Type=%s yields %s", got, yields))
+				}
 			} else if fi.Obj.Name() == "Keys" && !returnsInterfaceEnumeration(fi) {
-				h.r.OK(h.pre+".enumer", c, pos, "typed key enumerator (NextInt/NextLong/NextString do not consult Type)")
+				if bad := h.typedNextKind(fi, et, "keys"); bad != "" {
+					h.r.Viol(h.pre+".enumer", c, pos, bad)
+				} else {
+					h.r.OK(h.pre+".enumer", c, pos, "typed key enumerator: its Next<T>() yields the key for what the constructor sets")
+				}
 			} else {
 				h.r.Viol(h.pre+".enumer", c, pos, fmt.Sprintf("%s builds %s with Type=%s, for which NextElement yields %s instead of %s", fi.Obj.Name(), et.Obj().Name(), got, yields, wantKind))
 			}
@@ -3638,4 +3650,61 @@ func (h *hmapType) fieldsInvariant(fi *core.FuncInfo, cj ast.Expr, loop *ast.For
 		scan(loop.Post, fi, 0)
 	}
 	return !writes
+}
+
+// typedNextKind: the typed Next<T>() methods of the enumerator (NextInt, NextLong, NextString, ...) may
+// consult a discriminator of their own (isKey) beside the Type that NextElement switches on. With the
+// values the constructing method gives, every typed Next must yield want ("keys"/"values"); "" = fine.
+func (h *hmapType) typedNextKind(ctor *core.FuncInfo, et *types.Named, want string) string {
+	if want != "keys" && want != "values" {
+		return ""
+	}
+	if want == "values" && strings.Contains(h.t.Obj().Name(), "Set") {
+		return "" // the values of a set are its keys
+	}
+	// only the typed Next methods the caller can reach through what the constructor returns
+	var allowed map[string]bool
+	if rs := ctor.Obj.Type().(*types.Signature).Results(); rs.Len() == 1 {
+		if it, ok := rs.At(0).Type().Underlying().(*types.Interface); ok {
+			allowed = map[string]bool{}
+			for i := 0; i < it.NumMethods(); i++ {
+				allowed[it.Method(i).Name()] = true
+			}
+		}
+	}
+	for _, m := range h.p.MethodsOf(et) {
+		nm := m.Obj.Name()
+		if !strings.HasPrefix(nm, "Next") || nm == "NextElement" || m.Decl.Body == nil {
+			continue
+		}
+		if allowed != nil && !allowed[nm] {
+			continue
+		}
+		res := m.Obj.Type().(*types.Signature).Results()
+		if res.Len() != 1 || !isBasicType(res.At(0).Type()) {
+			continue
+		}
+		_, exprs, ok := h.enumYieldsX(ctor, nm)
+		if !ok {
+			continue
+		}
+		kinds := map[string]bool{}
+		for _, e := range exprs {
+			s := stripSpaces(types.ExprString(e))
+			switch {
+			case strings.HasSuffix(s, ".key") || strings.HasSuffix(s, ".Key") || strings.HasSuffix(s, "GetKey()"):
+				kinds["keys"] = true
+			case strings.HasSuffix(s, ".value") || strings.HasSuffix(s, ".Value") || strings.HasSuffix(s, "GetValue()"):
+				kinds["values"] = true
+			}
+		}
+		if len(kinds) == 1 && !kinds[want] {
+			got := "keys"
+			if kinds["values"] {
+				got = "values"
+			}
+			return fmt.Sprintf("%s builds %s so that %s() yields %s, not %s (the discriminator that method reads is not what the constructor sets)", ctor.Obj.Name(), et.Obj().Name(), nm, got, want)
+		}
+	}
+	return ""
 }
